@@ -65,10 +65,28 @@ def _built_vector(ename, g, down, up):
     return _BUILT[key]
 
 
-def _run(V, M, bv, bms, order):
+def _records(bv, bms, ids):
+    """ids: None/'unique' (vec, m0, m1, ...), 'same' (every record, the vector
+    included, carries the id 'plasmid'), 'default' (Biopython's '<unknown id>').
+    Modules are identified by object identity, never by id."""
+    from Bio.Seq import Seq
+    from moclo.record import CircularRecord
+    out = []
+    for b in [bv] + bms:
+        if ids == "same":
+            out.append(CircularRecord(Seq(b.seq), id="plasmid", name="plasmid"))
+        elif ids == "default":
+            out.append(CircularRecord(Seq(b.seq)))
+        else:
+            out.append(b.record())
+    return out
+
+
+def _run(V, M, bv, bms, order, ids=None):
     from moclo import errors
-    vec = V(bv.record())
-    mods = [M(b.record()) for b in bms]
+    recs = _records(bv, bms, ids)
+    vec = V(recs[0])
+    mods = [M(r) for r in recs[1:]]
     args = [mods[i] for i in order]
     with warnings.catch_warnings(record=True) as w:
         warnings.simplefilter("always")
@@ -96,7 +114,7 @@ def check(spec, ctx):
     want = model.verdict(bv.down, bv.up, [(b.up, b.down) for b in bms])
     desc = "vector %s->%s, modules %s" % (bv.down, bv.up, ["%s>%s" % (b.up, b.down) for b in bms])
     for order in spec["orders"]:
-        res = _run(V, M, bv, bms, order)
+        res = _run(V, M, bv, bms, order, spec.get("ids"))
         where = "%s order %r" % (desc, order)
         if res[0] == "error":
             exc, mods = res[1], res[2]
@@ -180,6 +198,9 @@ def run_exhaustive(arg, ctx):
             spec = {"enzyme": ename, "vector": [alpha[vd], alpha[vu]],
                     "modules": [list(types[c]) for c in combo], "orders": uniq}
             run_body(mod, spec, ctx)
+            if nm <= 2:
+                # the same graphs with records that all share one id
+                run_body(mod, dict(spec, ids="same"), ctx)
 
 
 # --------------------------------------------------------------------------
@@ -232,7 +253,11 @@ def _graph_specs(draw):
     mods = mods[:6]
     nm = len(mods)
     orders = [list(draw(st.permutations(list(range(nm))))) for _ in range(2)]
-    return {"enzyme": ename, "vector": vec, "modules": mods, "orders": orders}
+    spec = {"enzyme": ename, "vector": vec, "modules": mods, "orders": orders}
+    ids = draw(st.sampled_from([None, None, None, "same", "default"]))
+    if ids:
+        spec["ids"] = ids
+    return spec
 
 
 def strategies(tier):
